@@ -493,6 +493,11 @@ func stopCases() []*Case {
 		add("dump") // a is expired but nobody cleans any more
 		out = append(out, cs)
 	}
+	// default interval: CleanupInterval 0 means 150 s (first tick exactly then)
+	d := &Case{Mode: "sched"}
+	d.Lines = []string{fmt.Sprintf("cnew max=0 t0=%d iv=0", t0.UnixNano()), "set k=a v=1 ttl=1",
+		fmt.Sprintf("adv d=%d", 150*nsPerSecond-1), fmt.Sprintf("adv d=%d", 1), "bgsnap", "bgfinish", "dump", "stop"}
+	out = append(out, d)
 	// Stop on an idle cleaner, then more Stops
 	cs := &Case{Mode: "sched"}
 	cs.Lines = []string{fmt.Sprintf("cnew max=0 t0=%d iv=%d", t0.UnixNano(), nsPerSecond), "set k=a v=1 ttl=1",
